@@ -12,6 +12,8 @@ E1 (exact reals, ties of round-to-nearest-step excluded):
   H1/TimeDependentSystemWithField/{sample,integrate}    same with (field, field_derivative)
   H1/compute_dynamics                                   real TimeDependentSystem + float-time controls, N steps
   H1/compute_dynamics_with_field                        real TimeDependentSystemWithField + field equation of motion
+  H1/compute_dynamics_with_field/controls               the same with float-time pre/post controls (prepare_controls -> Control.get_controls)
+  H1/compute_dynamics_with_field/control_selection      cheap variant (scalar propagators): which control is applied at which step
   H1/MeanFieldTempo.field                               _time, _compute_field, _compute_field_derivative
   H1/Tempo.compute, H1/MeanFieldTempo.compute           start_time handed to System.get_propagators, labels
   H1/PtTebd                                             PtTebd.time / results['time']
@@ -352,6 +354,110 @@ class ComputeDynamicsWithField(_Base):
             obs.append(Ob.eq("field %d unchanged" % k, fb[k], fa[k], key="fields"))
             obs.append(Ob.eq("state %d unchanged" % k, sb[k], sa[k], key="states"))
         _assume_congruence(inp, *u.all())
+        return obs
+
+
+class ComputeDynamicsWithFieldControls(_Base):
+    """real compute_dynamics_with_field + real TimeDependentSystemWithField + field equation + float-time pre/post controls"""
+    functions = ("oqupy/system_dynamics.py:compute_dynamics_with_field (prepare_controls)", "oqupy/control.py:Control.get_controls",
+                 "Control.add_single", "oqupy/system.py:TimeDependentSystemWithField.get_propagators")
+    N = 2
+    max_paths = 60           # the intact code needs 4 paths
+
+    def __init__(self, dt=Fraction(1, 4)):
+        self.dt = Fraction(dt)
+        self.id = "H1/compute_dynamics_with_field/controls" + ("" if self.dt == Fraction(1, 4) else "/dt=%s" % self.dt)
+        self.bounds = {"steps": self.N, "d": 2, "float-time controls": "pre + post at one float time", "dt": str(self.dt)}
+
+    @guard_library_exceptions
+    def run(self, inp):
+        start, tau, dt = self.times(inp)
+        u = _User(inp)
+        f = Opaque("eom", lambda t, r, a: (0.1 + 0.25 * t) * r - 0.5 * a + 0.125 * t * t, cplx=True)
+        u.extra = (f,)
+        tc1 = tc2 = self.tpoint(inp, "tc1")      # pre and post control at the same float time (keeps the path count small;
+        C1 = inp.arr("C1", (4, 4))                # independent times: H1/compute_dynamics_with_field/control_selection)
+        C2 = inp.arr("C2", (4, 4))
+        rho0 = inp.arr("r", (2, 2))
+        a0 = inp.cplx("a0")
+        out, traces, logs = [], [], []
+        with exact_floats():
+            for shift in (_zero(inp), tau):
+                ctrl = _RecControl(2)
+                ctrl.add_single(tc1 + shift, C1, post=False)
+                ctrl.add_single(tc2 + shift, C2, post=True)
+                mfs = oqupy.MeanFieldSystem([u.field_system(shift)], field_eom=lambda t, states, a: 0.0 * a)
+                mfs._field_eom = (lambda sh: (lambda t, states, a: f(t - sh, states[0][0, 1], a)))(shift)
+                u.take()
+                dyn = sd.compute_dynamics_with_field(mfs, initial_field=a0, dt=dt, num_steps=self.N, initial_state_list=[rho0],
+                                                     start_time=start + shift, control_list=[ctrl], subdiv_limit=None,
+                                                     progress_type="silent")
+                traces.append(u.take())
+                logs.append(ctrl.__dict__.get("log", []))
+                out.append((list(dyn._times), list(dyn._fields), list(dyn._system_dynamics[0]._states)))
+        (ta, fa, sa), (tb, fb, sb) = out
+        # cheap obligations first: which control the real get_controls selected at which step
+        obs = [Ob.holds("controls queried for the same steps", [l[0] for l in logs[0]] == [l[0] for l in logs[1]], key="controls")]
+        for la, lb in zip(*logs):
+            for nm, x, y in (("pre", la[1], lb[1]), ("post", la[2], lb[2])):
+                obs.append(Ob.holds("step %d: %s control applied in both runs or in neither" % (la[0], nm), (x is None) == (y is None), key="controls"))
+                if x is not None and y is not None:
+                    obs.append(Ob.eq("step %d: same %s control" % (la[0], nm), y, x, key="controls"))
+        obs += _trace_obs(*traces)
+        obs.append(Ob.holds("same number of states", len(ta) == len(tb) == self.N + 1, key="len"))
+        for k in range(min(len(ta), len(tb))):
+            obs.append(Ob.eq("times[%d] shifted by exactly tau" % k, tb[k], ta[k] + tau, key="times"))
+            obs.append(Ob.eq("field %d unchanged" % k, fb[k], fa[k], key="fields"))
+            obs.append(Ob.eq("state %d unchanged" % k, sb[k], sa[k], key="states"))
+        _assume_congruence(inp, *u.all())
+        return obs
+
+
+class WithFieldControlSelection(_Base):
+    """which float-time control the real compute_dynamics_with_field applies at which step (prepare_controls ->
+    Control.get_controls): cheap variant with per-step scalar propagators and da/dt = 0, two independent float times"""
+    functions = ("oqupy/system_dynamics.py:compute_dynamics_with_field (prepare_controls)", "oqupy/control.py:Control.get_controls",
+                 "Control.add_single")
+    stubs = ("TimeDependentSystemWithField.get_propagators -> per-step symbolic multiples of the identity", "field equation of motion: da/dt = 0")
+    N = 3
+    max_paths = 1500
+
+    def __init__(self, dt=Fraction(1, 4)):
+        self.dt = Fraction(dt)
+        self.id = "H1/compute_dynamics_with_field/control_selection" + ("" if self.dt == Fraction(1, 4) else "/dt=%s" % self.dt)
+        self.bounds = {"steps": self.N, "d": 2, "float-time controls": "1 pre + 1 post, independent times", "dt": str(self.dt)}
+
+    @guard_library_exceptions
+    def run(self, inp):
+        start, tau, dt = self.times(inp)
+        tc1 = self.tpoint(inp, "tc1")
+        tc2 = self.tpoint(inp, "tc2")
+        C1 = inp.arr("C1", (4, 4))
+        C2 = inp.arr("C2", (4, 4))
+        rho0 = inp.arr("r", (2, 2))
+        cs, P1, P2 = _c13._scaled_props(inp, self.N, 2)
+        out, logs = [], []
+        with exact_floats():
+            for shift in (_zero(inp), tau):
+                ctrl = _RecControl(2)
+                ctrl.add_single(tc1 + shift, C1, post=False)
+                ctrl.add_single(tc2 + shift, C2, post=True)
+                mfs = oqupy.MeanFieldSystem([_c13._FakeFieldSystem(2, P1, P2)], field_eom=lambda t, states, a: 0.0 * a)
+                dyn = sd.compute_dynamics_with_field(mfs, initial_field=inp.one() * 1, dt=dt, num_steps=self.N, initial_state_list=[rho0],
+                                                     start_time=start + shift, control_list=[ctrl], progress_type="silent")
+                logs.append(ctrl.__dict__.get("log", []))
+                out.append((list(dyn._times), list(dyn._system_dynamics[0]._states)))
+        (ta, sa), (tb, sb) = out
+        obs = [Ob.holds("controls queried for the same steps", [l[0] for l in logs[0]] == [l[0] for l in logs[1]], key="controls")]
+        for la, lb in zip(*logs):
+            for nm, x, y in (("pre", la[1], lb[1]), ("post", la[2], lb[2])):
+                obs.append(Ob.holds("step %d: %s control applied in both runs or in neither" % (la[0], nm), (x is None) == (y is None), key="controls"))
+                if x is not None and y is not None:
+                    obs.append(Ob.eq("step %d: same %s control" % (la[0], nm), y, x, key="controls"))
+        obs.append(Ob.holds("same number of states", len(ta) == len(tb) == self.N + 1, key="len"))
+        for k in range(min(len(ta), len(tb))):
+            obs.append(Ob.eq("times[%d] shifted by exactly tau" % k, tb[k], ta[k] + tau, key="times"))
+            obs.append(Ob.eq("state %d unchanged" % k, sb[k], sa[k], key="states"))
         return obs
 
 
@@ -727,7 +833,7 @@ class ParseTimesFloat(FCase):
 # --------------------------------------------------------------------------
 def cases(tier):
     cs = [Propagators("sample"), Propagators("integrate"), FieldPropagators("sample"), FieldPropagators("integrate"),
-          ComputeDynamics(), ComputeDynamicsWithField(), Correlations("compute_correlations_nt"), Correlations("compute_correlations", "anti"),
+          ComputeDynamics(), ComputeDynamicsWithField(), ComputeDynamicsWithFieldControls(), WithFieldControlSelection(), Correlations("compute_correlations_nt"), Correlations("compute_correlations", "anti"),
           MeanFieldTempoField(), TempoLayer("Tempo"), TempoLayer("MeanFieldTempo"),
           PtTebdTimes(), ControlTimes(1, 2), ControlTimes(1, 2, Fraction(1, 10)), ParseTimes("float"), ParseTimes("interval"), ParseTimesFloat()]
     if tier == "thorough":
@@ -743,7 +849,7 @@ def cases(tier):
                 c.max_paths = 4000
             if isinstance(c, ParseTimesFloat):
                 c.validation_points, c.timeout_s, c.fp_timeout_s = 12, 600, 300
-        cs += [ControlTimes(2, 3), ComputeDynamics(Fraction(1, 10)), Correlations("compute_correlations", "ordered", Fraction(1, 10)),
+        cs += [ControlTimes(2, 3), ComputeDynamics(Fraction(1, 10)), ComputeDynamicsWithFieldControls(Fraction(1, 10)), WithFieldControlSelection(Fraction(1, 10)), Correlations("compute_correlations", "ordered", Fraction(1, 10)),
                ParseTimes("float", Fraction(1, 10)), ParseTimes("interval", Fraction(1, 10))]
     return cs
 
